@@ -229,8 +229,8 @@ func destEW(prop string, r *rng, emit func(string)) {
 		forms = []string{"un:neg:%a:%m", "un:square:%a:%m", "un:abs:%a:%m", "un:clamp.0.2:%a:%m", "un:sign:%a:%m"}
 	}
 	for _, dt := range []string{"f64", "i"} {
-		for _, la := range []string{"rm", "T"} {
-			for _, ld := range []string{"rm", "T", "stepslice", "slice", "cm", "cmslice", "rmT"} {
+		for _, la := range []string{"rm", "Trev"} {
+			for _, ld := range []string{"rm", "Trev", "stepslice", "slice", "cm", "cmslice", "rmT"} {
 				for _, form := range forms {
 					for _, mode := range []string{"reuse", "incr"} {
 						if strings.HasPrefix(form, "fma") && (mode == "incr" || dt != "f64" || ld == "rmT") {
@@ -242,7 +242,9 @@ func destEW(prop string, r *rng, emit func(string)) {
 						var p pb
 						preA, ia := source(r, la, sh, 1)
 						a := p.add(preA, ia)
-						preB, ib := source(r, "rm", sh, 3)
+						// (the second operand holds the same numbers in another arrangement, so that
+						// comparisons come out mixed and every cell of the result is distinguishable)
+						preB, ib := source(r, "mat", sh, 1)
 						b := p.add(preB, ib)
 						var d int
 						if ld == "rmT" {
